@@ -8,7 +8,8 @@
    That the real pipeline delivers such a chain (and reports exactly the mapped ranges) is checked on the implementation's
    output by the correspondence run (check_c01), for all modes / plugin stacks / dictionaries generated there. *)
 From Coq Require Import List NArith Arith.
-From SudachiVerif Require Import Model.Buffer Proofs.BufferProofs.
+From Coq Require Import ZArith.
+From SudachiVerif Require Import Model.Buffer Proofs.BufferProofs Model.Lattice Proofs.PipelineProofs.
 Import ListNotations.
 Open Scope nat_scope.
 
@@ -52,3 +53,20 @@ Theorem C01_offsets_fit_u16 :
   forall o s, wf_text o = true -> Reach the_cfg o s -> (N.of_nat (length (cur s)) <= 65535)%N.
 Proof. exact (fun o s => reach_len_u16 the_cfg C01_facts_ok o s C01_guards_ok). Qed.
 Print Assumptions C01_offsets_fit_u16.
+
+(* Composition with the lattice model of C02: in mode C without path rewriting, for EVERY candidate set inserted in lattice
+   order and EVERY connection-cost function, if the lattice is connected then the morphemes read back from it (character
+   positions -> byte ranges through the char-to-byte table of build() -> original offsets through the offset map) partition
+   the original text and their surfaces concatenate to it.  (Path rewriting and A/B splitting keep the chain property:
+   C14_rewrite_is_grouping, C09_split_partitions_parent; that the real pipeline composes them this way is the checked part.) *)
+Theorem C01_best_path_partitions_original :
+  forall (conn : N -> N -> Z) o s ns r i c,
+    wf_text o = true -> Reach the_cfg o s ->
+    nodes_ok (nchars (cur s)) ns -> (0 < nchars (cur s))%nat ->
+    connect_eos conn (insert_all conn (reset (nchars (cur s))) ns) = Some (r, i, c) ->
+    exists es p, top_path conn (insert_all conn (reset (nchars (cur s))) ns) = Some es /\
+                 map enode es = map Some p /\ path_cost conn p = c /\
+                 let ranges := map (map_range (m2o s)) (map (node_bytes (cur s)) p) in
+                 partition_b o ranges = true /\ concat (map (byte_slice o) ranges) = o.
+Proof. exact (best_path_partitions_original the_cfg C01_facts_ok). Qed.
+Print Assumptions C01_best_path_partitions_original.
